@@ -147,8 +147,16 @@ structure ClientGood (k : Nat) (c : Client) : Prop where
 def View.le (V V' : View) : Prop :=
   V.nextCtr ≤ V'.nextCtr ∧ (∀ r id, shownC (V.cl r) id ≤ shownC (V'.cl r) id) ∧ (∀ p, p ∈ V.submitted → p ∈ V'.submitted)
 
+/-- receipts against showings: exactly as many (fault-free runs), or at least as many (duplicated deliveries are
+    acknowledged again) -/
+def rcRel (ex : Bool) (rt sc : Nat) : Prop := if ex = true then rt = sc else sc ≤ rt
+
+theorem rcRel_shift {ex : Bool} {rt sc rt' sc' : Nat} (h : rcRel ex rt sc) (he : rt' + sc = rt + sc') : rcRel ex rt' sc' := by
+  unfold rcRel at *
+  split <;> simp_all <;> omega
+
 /-- the invariant over the view; `L`: the submissions it speaks about (all of them, except in the middle of `appSend`) -/
-structure TV (accts : List Acct) (groups : List (Nat × List Acct)) (L : List (Acct × Node)) (V : View) : Prop where
+structure TV (ex : Bool) (accts : List Acct) (groups : List (Nat × List Acct)) (L : List (Acct × Node)) (V : View) : Prop where
   acc : V.accounts = accts
   grp : V.groups = groups
   clients : ∀ r, ClientGood V.nextCtr (V.cl r)
@@ -156,7 +164,7 @@ structure TV (accts : List Acct) (groups : List (Nat × List Acct)) (L : List (A
   downs : ∀ r st, st ∈ V.outb r → DownGood V r st
   neq : ∀ a n, (a, n) ∈ L → ∀ r, r ∈ intendedG groups a n → r ≠ a
   cons : ∀ a n, (a, n) ∈ L → ∀ r, r ∈ intendedG groups a n → tokensV V a n.id r = 1
-  rcons : ∀ a n, (a, n) ∈ L → ∀ r, r ∈ intendedG groups a n → receiptTokensV V a n.id r = shownC (V.cl r) n.id
+  rcons : ∀ a n, (a, n) ∈ L → ∀ r, r ∈ intendedG groups a n → rcRel ex (receiptTokensV V a n.id r) (shownC (V.cl r) n.id)
   ans : ∀ r, (∀ e ∈ (V.cl r).iqReg, ∃ st ∈ V.inb r ++ V.outb r, stanzaIq st = some e.1) ∧
     (∀ e ∈ (V.cl r).pendingIn, ∃ k ∈ (V.cl r).iqReg, k.2 = Cont.keysForPending e.1.1 e.1.2)
   unop : ∀ r, r ∈ accts → ∀ x, wayV accts V r x ≤ 1 ∧
@@ -169,7 +177,7 @@ structure TV (accts : List Acct) (groups : List (Nat × List Acct)) (L : List (A
   retq : ∀ a e, e ∈ (V.cl a).iqReg → ∀ n w c, e.2 = Cont.keysForRetry n w c → isGroupDest n.dest = true → n ∈ (V.cl a).sentQueue
 
 /-- the invariant of the induction -/
-def TInv (accts : List Acct) (groups : List (Nat × List Acct)) (s : Sys) : Prop :=
-  AInv accts groups (abs s) ∧ TV accts groups s.submitted (view s)
+def TInv (ex : Bool) (accts : List Acct) (groups : List (Nat × List Acct)) (s : Sys) : Prop :=
+  AInv accts groups (abs s) ∧ TV ex accts groups s.submitted (view s)
 
 end Yow.E2E
